@@ -4,6 +4,8 @@ CONSTANTS
   KeysNested = {"a"}
   Depth = 1
   Export = FALSE
+  Catalogue = "kinds"
+  SizeTest = "order"
   Caught = {"TypeError"}
 INVARIANT RoundTrip
 INVARIANT NoError
